@@ -429,6 +429,10 @@ func caldavFilterValid(in *Interp, f Val, depth int) bool {
 }
 
 func caldavRoundtrips(c *Ctx, r *RuleResult) {
+	bonus := 0
+	if c.Thorough() {
+		bonus = 1
+	}
 	filterLens := func(key string) int {
 		switch {
 		case strings.HasSuffix(key, ".Comps"):
@@ -439,6 +443,9 @@ func caldavRoundtrips(c *Ctx, r *RuleResult) {
 		case strings.HasSuffix(key, ".Props"), strings.HasSuffix(key, ".ParamFilter"):
 			if strings.Count(key, ".Comps") >= 1 {
 				return 0
+			}
+			if strings.HasSuffix(key, ".ParamFilter") {
+				return 1 + bonus
 			}
 			return 1
 		}
@@ -524,16 +531,22 @@ func caldavRoundtrips(c *Ctx, r *RuleResult) {
 // CardDAV
 
 func carddavRoundtrips(c *Ctx, r *RuleResult) {
+	bonus := 0
+	if c.Thorough() {
+		bonus = 1
+	}
 	lens := func(key string) int {
 		switch {
 		case strings.HasSuffix(key, ".PropFilters"):
 			return 1
-		case strings.HasSuffix(key, ".TextMatches"), strings.HasSuffix(key, ".Params"):
+		case strings.HasSuffix(key, ".TextMatches"):
+			return 1 + bonus
+		case strings.HasSuffix(key, ".Params"):
 			return 1
 		case strings.HasSuffix(key, ".Props"):
 			return 2
 		case strings.HasSuffix(key, ".Paths"):
-			return 2
+			return 2 + bonus
 		}
 		return 1
 	}
